@@ -47,6 +47,7 @@ class Unit:
         self.twins = None
         self.audits = []
         self.anchors_lost = []
+        self.assumed = []
 
     def src(self, rel):
         if rel not in self.sources:
@@ -130,6 +131,30 @@ class Unit:
                     raise ExtractError('template error: //@fn %s without //@end' % path)
                 i += 1
                 self._emit_fn(rel, path, allowed, '\n'.join(sig_lines), sections, out, twins_out)
+                continue
+            if d == 'extern':
+                # assumed contract on a function left outside the proof: the SIGNATURE is still checked
+                # against the source (anchor drift otherwise); the body is not read.
+                parts = arg.split()
+                rel, path = parts[0], parts[1].replace('~', ' ')
+                i += 1
+                sig_lines = []
+                while i < len(lines) and not re.match(r'\s*//@end\b', lines[i]):
+                    sig_lines.append(lines[i])
+                    i += 1
+                i += 1
+                sig_text = '\n'.join(sig_lines)
+                s = self.src(rel)
+                f = s.find_fn(path)
+                plain, ret_name, clauses = split_template_sig(sig_text)
+                rs = real_sig(s, f)
+                if plain != rs:
+                    raise ExtractError('anchor drift: signature of assumed fn %s in %s changed\n  template: %s\n  source:   %s' % (path, rel, plain, rs))
+                body_text = s.text[s.tok(f['body_open'])[3]:s.tok(f['body_close'])[2]]
+                emit('// ---- ASSUMED contract for %s (%s:%d), body not verified (sha256 %s)\n' % (path, rel, s.line_of(s.tok(f['fn_ci'])[2]), sha256(body_text)[:16]))
+                emit('#[verifier::external_body]\n' + sig_text.rstrip() + '\n{ unimplemented!() }\n')
+                self.assumed.append(dict(file=rel, fn=path, line=s.line_of(s.tok(f['fn_ci'])[2]), body_sha256=sha256(body_text),
+                                         clauses=[dict(kind=k, text=re.sub(r'\s+', ' ', t)[:300]) for k, t in clauses]))
                 continue
             raise ExtractError('template error: unknown directive //@%s' % d)
         self.generated = ''.join(out)
